@@ -1,32 +1,34 @@
 #!/bin/bash
-# usage: tools/verify_seed.sh <ID> <i>
-# Confirms in the sub-agent's scratch worktree /tmp/wt/<ID> that seeded change <i>
+# usage: tools/verify_seed.sh <seed>        e.g. C04-2, R2-C11-1   (a directory under /verif/seeded)
+# Confirms in a scratch git worktree of /repo (created under /tmp, removed afterwards) that the seeded change
 #  (a) applies and compiles, (b) leaves the repository's own suite green, (c) makes its demonstration fail,
-#  (d) and that the demonstration passes on the unchanged tree. Prints a summary line; nothing is written to /repo.
-id="$1"; i="$2"; wt=/tmp/wt/$id; sd=$wt/SEEDED/$i
+#  (d) and that the demonstration passes on the unchanged tree. Nothing is written to /repo.
+seed="$1"; sd=/verif/seeded/$seed; wt=/tmp/verif-seed-wt
+[ -f $sd/patch.diff ] || { echo "$seed: no patch.diff"; exit 2; }
+git -C /repo worktree remove --force $wt 2>/dev/null; rm -rf $wt
+git -C /repo worktree add -q --detach $wt HEAD || exit 2
 cd $wt || exit 2
-git checkout -q -- . ; rm -f tests/demo_test.rs tests/seeded_demo_*.rs
-[ -f $sd/patch.diff ] || { echo "$id/$i: no patch.diff"; exit 2; }
+export CARGO_NET_OFFLINE=true CARGO_TARGET_DIR=/tmp/verif-seed-target
 demo=$(ls $sd/*.rs 2>/dev/null | head -1)
-git apply $sd/patch.diff || { echo "$id/$i: patch does not apply"; exit 2; }
-export CARGO_NET_OFFLINE=true
+git apply $sd/patch.diff 2>/dev/null || patch -p1 -s < $sd/patch.diff || { echo "$seed: patch does not apply"; exit 2; }
 suite=$(timeout 900 cargo test --workspace --no-fail-fast --offline 2>&1 | grep -E "^test result" | tr '\n' ' ')
-if [ -z "$suite" ] || [ $(echo "$suite" | grep -o "test result" | wc -l) -lt 4 ]; then
-  # a seeded deadlock can make the suite hang in rare runs: try once more before calling it broken
-  suite=$(timeout 900 cargo test --workspace --no-fail-fast --offline 2>&1 | grep -E "^test result" | tr '\n' ' ')
+if [ -z "$suite" ] || [ $(echo "$suite" | grep -o "test result" | wc -l) -lt 4 ] || echo "$suite" | grep -q "FAILED"; then
+  # a seeded deadlock or a timing-dependent existing test can make one run hang or fail: try once more
+  suite2=$(timeout 900 cargo test --workspace --no-fail-fast --offline 2>&1 | grep -E "^test result" | tr '\n' ' ')
+  [ -n "$suite2" ] && suite="$suite2"
 fi
 suite_ok=yes; echo "$suite" | grep -q "FAILED\|[1-9][0-9]* failed" && suite_ok=no
 [ -z "$suite" ] && suite_ok=no
 if [ -n "$demo" ]; then
-  cp $demo tests/seeded_demo_$i.rs
-  with=$(cargo test --offline --test seeded_demo_$i 2>&1 | grep -E "^test result|error(\[|:)" | head -3 | tr '\n' ' ')
+  feat=""; grep -q "bench_testable" $sd/notes.md 2>/dev/null && feat="--features bench_testable"
+  cp $demo tests/seeded_demo.rs
+  with=$(timeout 900 cargo test --offline $feat --test seeded_demo 2>&1 | grep -E "^test result|error(\[|:)" | head -3 | tr '\n' ' ')
   git checkout -q -- src
-  without=$(cargo test --offline --test seeded_demo_$i 2>&1 | grep -E "^test result|error(\[|:)" | head -3 | tr '\n' ' ')
-  rm -f tests/seeded_demo_$i.rs
+  without=$(timeout 900 cargo test --offline $feat --test seeded_demo 2>&1 | grep -E "^test result|error(\[|:)" | head -3 | tr '\n' ' ')
 else
-  with="(no demo file)"; without="(no demo file)"; git checkout -q -- src
+  with="(no demo file)"; without="(no demo file)"
 fi
-git checkout -q -- .
-echo "$id/$i suite_ok=$suite_ok | suite: $suite"
-echo "$id/$i demo WITH change: $with"
-echo "$id/$i demo WITHOUT change: $without"
+cd /; git -C /repo worktree remove --force $wt 2>/dev/null; rm -rf $wt
+echo "$seed suite_ok=$suite_ok | suite: $suite"
+echo "$seed demo WITH change: $with"
+echo "$seed demo WITHOUT change: $without"
